@@ -14,7 +14,7 @@
    All statements are per slice of the product domain; C09_subspace ties slices to the flat array. *)
 From Coq Require Import List Arith Bool PeanoNat Lia Ring_theory ZArith QArith Qcanon.
 Import ListNotations.
-Require Import NV.C09.Model NV.C09.Proofs NV.C09.ProofsH NV.C09.ProofsK NV.C09.ProofsI NV.C09.ModelSHT NV.C09.ProofsSHT.
+Require Import NV.C09.Model NV.C09.Proofs NV.C09.ProofsH NV.C09.ProofsK NV.C09.ProofsI NV.C09.ModelSHT NV.C09.ProofsSHT NV.C09.ModelSeq NV.C09.ProofsS.
 Local Open Scope nat_scope.
 
 Definition is_ring (K : ring_ops) : Prop :=
@@ -188,6 +188,32 @@ Theorem C09_smoothing_integral :
   op_mul K (natR K N) (op_mul K (dvol_dom g) (dvol_tgt g)) = op_1 K ->
   forall ker x, 0 < N -> rsum K N (smooth K noncanon W g ker x) = op_mul K (ker 0) (rsum K N x).
 Proof. exact smooth_integral. Qed.
+
+(* ---- the factory HarmonicSmoothingOperator(domain, sigma, space): its sigma branches ------------- *)
+
+(* the constructor raises exactly for sigma < 0 *)
+Theorem C09_smoothing_op_raises_iff :
+  forall K sg noncanon W (g : geo K) ker x, smooth_op K sg noncanon W g ker x = None <-> sg = Lt.
+Proof. exact smooth_op_raises_iff. Qed.
+
+(* the sigma == 0 shortcut (ScalingOperator 1) is the identity AND equals what the general branch
+   Hartley.inverse(diag(Hartley)) gives for the zero-width kernel (== 1): no jump at sigma = 0 *)
+Theorem C09_smoothing_op_zero_width :
+  forall K, is_ring K -> forall N W, kernel_sym K N W -> kernel_orth K N W -> kernel_real K N W ->
+  forall noncanon (g : geo K), ncells g = N ->
+  op_mul K (natR K N) (op_mul K (dvol_dom g) (dvol_tgt g)) = op_1 K ->
+  forall ker x, (forall k, k < N -> ker k = op_1 K) ->
+  forall r0 r1, smooth_op K Eq noncanon W g ker x = Some r0 -> smooth_op K Gt noncanon W g ker x = Some r1 ->
+  (forall j, r0 j = x j) /\ (forall j, j < N -> r0 j = r1 j).
+Proof. exact smooth_op_zero_width. Qed.
+
+(* whichever branch the factory takes, the operator it returns is self-adjoint *)
+Theorem C09_smoothing_op_selfadjoint :
+  forall K, is_ring K -> forall N W, kernel_sym K N W -> forall noncanon (g : geo K), ncells g = N ->
+  forall sg ker x y rx ry,
+  smooth_op K sg noncanon W g ker x = Some rx -> smooth_op K sg noncanon W g ker y = Some ry ->
+  rdot K N rx y = rdot K N x ry.
+Proof. exact smooth_op_selfadjoint. Qed.
 
 (* ---- where the kernel facts come from ----------------------------------------------------------- *)
 
